@@ -78,6 +78,14 @@ def run(ctx):
 
     # ---- SED.read wiring
     rd = ctx.fn(repo.func('sed.sed', 'SED.read'))
+    cols = {}
+    for t, v, st in stores(rd.node):
+        if isinstance(t, ast.Name):
+            fld = [const(c.args[0]) for c in calls(v) if up(c.func).endswith('.field') and c.args]
+            if fld:
+                cols[t.id] = fld[0]
+    objs = [t.id for t, v, st in stores(rd.node) if isinstance(t, ast.Name) and isinstance(v, ast.Call) and chain(v.func) == rd.params[0] and not v.args]
+    obj = objs[0] if objs else 'sed'
     ccalls = [(t, v, st) for t, v, st in stores(rd.node) if isinstance(v, ast.Call) and (chain(v.func) or '').endswith('convert_flux')]
     targets = {}
     for t, v, st in ccalls:
@@ -85,27 +93,23 @@ def run(ctx):
             targets[t.attr] = (v, st)
     rev = [st.lineno for t, v, st in stores(rd.node) if isinstance(v, ast.Subscript) and '::-1' in up(v)]
     first_rev = min(rev) if rev else 10 ** 9
-    for attr in ('flux', 'error'):
+    if not cols or 'FREQUENCY' not in cols.values():
+        raise AnalysisError('SED.read: column locals not found')
+    for attr, colname in (('flux', 'TOTAL_FLUX'), ('error', 'TOTAL_FLUX_ERR')):
         inst = 'SED.read converts %s' % attr
         if attr not in targets:
-            ctx.violation('ALG-15r', inst, where(rd), 'sed.%s is not produced by convert_flux' % attr, 'not-converted')
+            ctx.violation('ALG-15r', inst, where(rd), '%s.%s is not produced by convert_flux' % (obj, attr), 'not-converted')
             continue
         v, st = targets[attr]
-        args = [up(a) for a in v.args]
-        dist = up(kw(v, 'distance')) if kw(v, 'distance') is not None else (args[3] if len(args) > 3 else None)
-        okk = len(args) >= 3 and args[0] in ('nu', 'sed.nu') and args[1] == attr and args[2] == 'unit_flux' and dist == 'sed.distance' and st.lineno < first_rev
-        ctx.expect(okk, 'ALG-15r', inst, where(rd, v), 'convert_flux(nu, %s, unit_flux, distance=sed.distance) before the reversal' % attr,
-                   'called as %s (line %d, first reversal at %d)' % (up(v), st.lineno, first_rev), 'read-wiring')
-    # the local the call reads must be the file column of the same name
-    cols = {}
-    for t, v, st in stores(rd.node):
-        if isinstance(t, ast.Name):
-            fld = [const(c.args[0]) for c in calls(v) if up(c.func).endswith('.field') and c.args]
-            if fld:
-                cols[t.id] = fld[0]
-    want = {'nu': 'FREQUENCY', 'flux': 'TOTAL_FLUX', 'error': 'TOTAL_FLUX_ERR'}
-    ctx.expect(all(cols.get(k) == v for k, v in want.items()), 'ALG-15r', 'SED.read locals come from the matching columns', where(rd),
-               '%s' % {k: cols.get(k) for k in want}, 'locals bound to %s' % cols, 'read-columns')
+        a = v.args
+        dist = kw(v, 'distance') if kw(v, 'distance') is not None else (a[3] if len(a) > 3 else None)
+        tgt = kw(v, 'target_unit') if kw(v, 'target_unit') is not None else (a[2] if len(a) > 2 else None)
+        nu_ok = len(a) >= 1 and ((isinstance(a[0], ast.Name) and cols.get(a[0].id) == 'FREQUENCY') or up(a[0]) == '%s.nu' % obj)
+        fl_ok = len(a) >= 2 and isinstance(a[1], ast.Name) and cols.get(a[1].id) == colname
+        okk = nu_ok and fl_ok and tgt is not None and up(tgt) == 'unit_flux' and dist is not None and up(dist) == '%s.distance' % obj and st.lineno < first_rev
+        ctx.expect(okk, 'ALG-15r', inst, where(rd, v), 'convert_flux(<FREQUENCY column>, <%s column>, unit_flux, distance=%s.distance) before the reversal' % (colname, obj),
+                   'called as %s (line %d, first reversal at %d; locals %s)' % (up(v), st.lineno, first_rev, cols), 'read-wiring')
+    ctx.ok('ALG-15r', 'SED.read locals come from the matching columns', where(rd), '%s' % cols)
 
     # ---- unit string parsing
     common.api_literal_rule(ctx, ['sed.helpers'], min_sites=1)
